@@ -193,10 +193,24 @@ def check_problem_text(name, text_):
     return out, False
 
 
-def from_input(ident, written):
+_PREFIXES = []
+
+
+def copy_prefixes(b):
+    """the prefixes anthem puts in front of a predicate name for its here/there copies (read off the implementation)"""
+    if not _PREFIXES:
+        probe = 'zzprobe'
+        for op in ('here', 'there'):
+            n = str(b.call(op, ('atom', Q(probe)))[0][1])
+            _PREFIXES.append(n[:-len(probe)] if n.endswith(probe) else '')
+    return _PREFIXES
+
+
+def from_input(ident, written, prefixes=()):
     """can the TFF identifier be traced to a name written in the task (itself, a here/there copy of it, a sort-mangled
     or renamed form of it)?"""
-    cands = {ident, ident[1:], re.sub(r'_[gis]$', '', ident), re.sub(r'__s\d*$', '', ident), re.sub(r'_p\d*$', '', ident)}
+    cands = {ident, re.sub(r'_[gis]$', '', ident), re.sub(r'__s\d*$', '', ident), re.sub(r'_p\d*$', '', ident)}
+    cands |= {ident[len(p):] for p in prefixes if p and ident.startswith(p)}
     return any(c in written for c in cands if c)
 
 
@@ -267,7 +281,7 @@ def check_item(item):
                 # on an identifier that cannot be traced to the task's text is something else and gets its own signature
                 if sgn.startswith('two-types') or sgn in ('declared-twice', 'type-vs-symbol'):
                     m = re.match(r'(\S+) declared', msg)
-                    if m and not from_input(m.group(1), written):
+                    if m and not from_input(m.group(1), written, copy_prefixes(b)):
                         sgn += ':identifier-not-from-input'
                 by_sig.setdefault(sgn, []).append(msg)
             for sgn, msgs in sorted(by_sig.items()):
